@@ -10,6 +10,8 @@ pub mod c04;
 pub mod c07;
 pub mod c08;
 pub mod c09;
+pub mod c12;
+pub mod c13;
 pub mod c14;
 pub mod c16;
 pub mod c17;
@@ -120,6 +122,8 @@ pub fn lookup(prop: &str) -> Option<CaseFn> {
         "C07" => c07::case,
         "C08" => c08::case,
         "C09" => c09::case,
+        "C12" => c12::case,
+        "C13" => c13::case,
         "C14" => c14::case,
         "C16" => c16::case,
         "C17" => c17::case,
@@ -128,4 +132,12 @@ pub fn lookup(prop: &str) -> Option<CaseFn> {
         "C15" => c15::case,
         _ => return None,
     })
+}
+
+/// Size of the finite case space that a property enumerates completely (if any).
+pub fn case_count(prop: &str, tier: crate::runner::Tier) -> Option<u64> {
+    match prop {
+        "C13" => Some(c13::case_count(tier)),
+        _ => None,
+    }
 }
